@@ -84,6 +84,7 @@ def strategy_(draw, tier):
         time_units=draw(st.sampled_from(["uncalibrated", "years", "generations", "ticks"])),
         mono_fracs=draw(st.lists(st.floats(0, 1, exclude_max=True, allow_nan=False), min_size=1, max_size=6)),
         mono_integer=draw(st.booleans()),
+        mono_equalise=draw(st.booleans()),
         # non-empty edge metadata makes the discrete methods crash in tskit's simplify (C35's)
         edge_md=not discrete,
     )
@@ -166,6 +167,8 @@ def check(case, ctx):
         ctx.label("rescaling_on")
     if "monomorphic" in kinds:
         ctx.label(f"monomorphic_added={min(ts2.num_sites - ts1.num_sites, 3)}")
+        if ts2.num_sites == ts2.num_mutations and ts1.num_sites != ts1.num_mutations:
+            ctx.label("sites_equal_mutations_after_padding")
     s1, r1 = run(ts1, case)
     if s1 != "ok":
         ctx.discard(("rejected:" + str(r1)[:40]) if s1 == "rejected" else ("internal:" + exc_key(r1)))
